@@ -686,6 +686,15 @@ func runBatch(p *propCfg, b *build, seed uint64, tier string, total uint64, proc
 		if r.crash == nil {
 			return 0, false
 		}
+		if r.crash.exit == 77 && strings.Contains(r.crash.stderr, "SIM-BLOCKED") {
+			// harness limitation, not a violation: count and go on
+			bt.counters["inconclusive_blocked_on_unmodelled_primitive"]++
+			bt.cases += int64(r.crash.caseIdx-r.from) + 1
+			if r.crash.caseIdx+1 < r.to {
+				return r.crash.caseIdx + 1, true
+			}
+			return 0, false
+		}
 		if harnessTrouble.MatchString(r.crash.stderr) || !r.crash.started {
 			fatal = fmt.Sprintf("worker failed (%s):\n%s", r.crash.reason, r.crash.stderr)
 			return 0, false
